@@ -108,6 +108,13 @@ CHECKS = {
         "inventories incl. mtimes of files and directories must be equal before/after, the private temp directory must be empty afterwards.",
    note="temp/cache/home directories are private scratch dirs outside the tree; -o points outside the tree",
    tech="TLC model checking of the handle life cycle + syscall-level observation of real runs (shim) with inventories"),
+ "C16": dict(cat="model_checking", sec="5 C16",
+   text="Glob.tla is the reference matcher (token-level semantics of the README table, case folding). TLC enumerates every glob of up to 3 tokens over 20 token kinds and evaluates it on every "
+        "string of up to 4 characters over {a,A,.,-,ż,/} (about 10^7 pairs), emitting for each glob the matching set and the directories that are ancestors of matching strings. Every vector is "
+        "replayed through the real Pattern::glob_with / matches (exact equality), matches_partially (must admit every ancestor), matches_prefix (exclude pruning must not skip unmatched paths), "
+        "and sampled pairs through the real PathSelector with two --path patterns.",
+   note="bounded: <= 3 tokens, <= 4 characters (the property's 5 tokens / 4 components are not reached exhaustively); `!(..)` and newline outside",
+   tech="TLC bounded-exhaustive evaluation of a reference matcher spec + vector replay through the real matcher"),
 }
 
 def main():
